@@ -208,6 +208,41 @@ Theorem C13_canonical_form_ignores_labels : forall rho : pyval -> pyval,
 Proof. exact canonical_form_ignores_labels. Qed.
 Print Assumptions C13_canonical_form_ignores_labels.
 
+(* ---- the path cache and the expression cache are two dicts ----------------------------------- *)
+(* on the GENERATED names of the dicts that array_contract_path and array_contract_expression read
+   and write (each a module-level name bound exactly once to `{}` and mentioned nowhere else --
+   checked by the translator): they are different objects *)
+Theorem C13_caches_are_separate :
+  py_eqb (PStr (codes_of_string path_cache_table)) (PStr (codes_of_string expr_cache_table)) = false /\
+  py_eqb (PStr (codes_of_string expr_cache_table)) (PStr (codes_of_string path_cache_table)) = false.
+Proof. split; vm_compute; reflexivity. Qed.
+Print Assumptions C13_caches_are_separate.
+
+(* with different dicts the combined machine (path and expression requests interleaved in any order)
+   is transparent as soon as each cache separates the calls that go through it *)
+Theorem C13_two_caches_transparent :
+  forall (R : Type) (tag : ckind -> pyval) e kx fb (compute : ckind * ncall -> R) (cs : list (ckind * ncall)),
+  py_eqb (tag KPathCall) (tag KExprCall) = false -> py_eqb (tag KExprCall) (tag KPathCall) = false ->
+  (forall c1 c2, In c1 cs -> In c2 cs -> fst c1 = fst c2 -> two_use c1 = true -> two_use c2 = true ->
+     py_eqb (nc_dkey e (kx (fst c1)) (snd c1)) (nc_dkey e (kx (fst c2)) (snd c2)) = true ->
+     compute c1 = compute c2) ->
+  (fb = true \/ forall c, In c cs -> two_use c = true -> two_keyok kx c = true) ->
+  cached_outputs (two_dkey tag e kx) two_use (two_keyok kx) fb compute cs = plain_outputs compute cs.
+Proof. exact two_caches_transparent. Qed.
+Print Assumptions C13_two_caches_transparent.
+
+(* with ONE shared dict a path request followed by an option-free expression request for the same
+   contraction (same key: kwargs = frozenset()) returns the path object to the expression request *)
+Theorem C13_merged_caches_refuted :
+  forall (R : Type) (t : pyval) e k fb (compute : ckind * ncall -> R) (n : ncall),
+  nc_use n = true -> nc_keyok k n = true -> py_eqb t t = true ->
+  py_eqb (nc_dkey e k n) (nc_dkey e k n) = true ->
+  cached_outputs (two_dkey (fun _ => t) e (fun _ => k)) two_use (two_keyok (fun _ => k)) fb compute
+                 [(KPathCall, n); (KExprCall, n)]
+  = [Some (compute (KPathCall, n)); Some (compute (KPathCall, n))].
+Proof. exact merged_caches_visible. Qed.
+Print Assumptions C13_merged_caches_refuted.
+
 (* ---- non-vacuity ---------------------------------------------------------------------------- *)
 (* a concrete sequence with a hit, a miss caused by a different kwarg and an uncached call, under
    the generated key; `build` = the list of the used fields' values *)
@@ -279,3 +314,10 @@ Example C13_example_relabel :
   option_map (fun c => getf (nc_fields c) "inputs") (normalize ex_raw)
   = Some (PTuple [PTuple [PStr [97%nat]; PStr [98%nat]]; PTuple [PStr [98%nat]; PStr [99%nat]]]).
 Proof. split; [vm_compute; discriminate | split; vm_compute; reflexivity]. Qed.
+
+(* the hypotheses of C13_merged_caches_refuted are satisfiable: the first call of ex_calls, tuple key *)
+Example C13_example_merged :
+  let n := mkCall true true (ex_fields ex_ac []) in
+  nc_use n = true /\ nc_keyok (tuple_key std_spec) n = true /\
+  py_eqb (nc_dkey ex_env (tuple_key std_spec) n) (nc_dkey ex_env (tuple_key std_spec) n) = true.
+Proof. vm_compute. repeat split. Qed.
